@@ -34,11 +34,12 @@ def plan(tier, seed):
     n = 220 if tier == "quick" else 2500
     specs_ = [{"n": n, "sub": i} for i in range(16)]
     specs_ += [{"kind": "ix", "n": 40 if tier == "quick" else 400, "sub": 900 + i} for i in range(16)]
+    specs_ += [{"kind": "big", "n": 2 if tier == "quick" else 12, "sub": 1600 + i} for i in range(16)]
     return specs_
 
 
 def floors(tier):
-    return {"cls:feature_interaction_query": 300, "distinct_nontrivial": 200, "cls:pos:cond": 500, "cls:pos:operand_an": 100, "cls:pos:operand_the": 30,
+    return {"re:cls:scale:subquery_with_many_solutions:.*": 100, "cls:feature_interaction_query": 300, "distinct_nontrivial": 200, "cls:pos:cond": 500, "cls:pos:operand_an": 100, "cls:pos:operand_the": 30,
             "cls:pos:argument": 100, "cls:pos:correlated_the": 100, "cls:pos:correlated_an": 100, "cls:pos:operand_value_eq": 100, "cls:pos:pred_arg_bound": 100, "cls:pos:ctor_arg_bound": 100, "cls:pos:operand_in_or": 100, "cls:pos:operand_attr": 100, "cls:pos:container": 100, "cls:pos:alias_in_or": 100, "cls:pos:selected_operand_in_or": 100, "cls:pos:selected_attr_of_subquery": 100, "cls:conn:&": 150, "cls:conn:|": 150, "cls:sub:set": 100, "cls:sub:ent0": 100,
             "cls:sub:ent1": 100, "cls:with_plain": 100, "re:An@.*\\.enter": 1000}
 
@@ -78,7 +79,70 @@ def gen_case(rng):
     return case
 
 
+def gen_big_case(rng, shape):
+    """SIZE: a sub-query with dozens to hundreds of solutions (many of them sharing the compared value), independent of the rest of
+    the enclosing query: as the operand of an equality whose other side ranges over 60-100 objects, or as a whole condition after a
+    conjunct that leaves several rows"""
+    if shape == "operand_selected":
+        world = D.random_world(rng, np_=(60, 90), nq=(36, 50), hi=6, rich=False)
+    else:
+        world = D.random_world(rng, np_=(270, 330), nq=(3, 4), hi=6, rich=False)
+    return {"big": shape, "world": world, "k0": rng.randint(1, 3), "c1": ["cmp", rng.choice(["<=", ">=", "!="]), ["v", 0, [["a", "a"]]], ["lit", rng.randint(2, 5)]],
+            "caching": rng.random() < 0.85, "pos": "big:" + shape}
+
+
+def check_big_case(case, ctx):
+    from entity_query_language import symbolic_mode, an, entity, set_of, let
+    from entity_query_language.cache_data import enable_caching, disable_caching
+    world = D.build_world(case["world"])
+    m = H.labels_of(world)
+    ps, qs = world["P"], world["Q"]
+    shape = case["big"]
+    ctx.cls("cls:scale:subquery_with_many_solutions:" + shape)
+    sols = [p for p in ps if C.holds(case["c1"], (p,))]
+    if shape == "operand_selected":
+        # set_of([x, y], x.b >= k0, x.a == an(entity(y, c1)).b)   ==   set_of([x, y], x.b >= k0, c1(y), x.a == y.b)
+        exp = sorted((m[id(q)], m[id(p)]) for q in qs for p in sols if q.b >= case["k0"] and q.a == p.b)
+    else:
+        # set_of([x, y], x.a >= k0, an(entity(y, c1)))   ==   set_of([x, y], x.a >= k0, c1(y))
+        exp = sorted((m[id(q)], m[id(p)]) for q in qs for p in sols if q.a >= case["k0"])
+    if exp:
+        ctx.nontrivial()
+
+    def build(flattened):
+        with symbolic_mode():
+            x, y = let(D.Q, qs), let(D.P, ps)
+            c1 = C.build(case["c1"], [y], 0, False)
+            if shape == "operand_selected":
+                q = an(set_of([x, y], x.b >= case["k0"], c1, x.a == y.b)) if flattened else \
+                    an(set_of([x, y], x.b >= case["k0"], x.a == an(entity(y, c1)).b))
+            else:
+                q = an(set_of([x, y], x.a >= case["k0"], c1)) if flattened else an(set_of([x, y], x.a >= case["k0"], an(entity(y, c1))))
+        return q, x, y
+    (enable_caching if case["caching"] else disable_caching)()
+    try:
+        for which in ("composed", "flattened"):
+            q, x, y = build(which == "flattened")
+            for rnd in range(2 if which == "composed" else 1):
+                got = sorted((m[id(r[x])], m[id(r[y])]) for r in q.evaluate())
+                if set(got) != set(exp):
+                    ctx.fail("SET:" + ("missing" if set(exp) - set(got) else "") + ("+extra" if set(got) - set(exp) else ""),
+                             {"which": which + " vs oracle", "shape": shape, "evaluation": rnd + 1, "n_expected": len(set(exp)),
+                              "n_observed": len(set(got)), "subquery_solutions": len(sols)}, which=which)
+                    return
+    except Exception as e:
+        import traceback
+        ctx.fail("EXC", f"big: {type(e).__name__}: {e}\n{traceback.format_exc()[-500:]}")
+    finally:
+        enable_caching()
+    ctx.sample({"big": shape, "rows": len(exp), "subquery_solutions": len(sols)})
+
+
 def cases(spec, ctx):
+    if spec.get("kind") == "big":
+        for i in range(spec["n"]):
+            yield gen_big_case(ctx.rng(spec["sub"], i), ["operand_selected", "independent_condition"][(i + spec["sub"]) % 2])
+        return
     if spec.get("kind") == "ix":
         from .. import ix
         for i in range(spec["n"]):
@@ -302,6 +366,8 @@ def run_for_c05(case, caching, times):
 
 
 def check_case(case, ctx):
+    if "big" in case:
+        return check_big_case(case, ctx)
     if "ix" in case:
         from .. import ix
         return ix.check(case["ix"], ctx)
@@ -359,7 +425,7 @@ def check_case(case, ctx):
 
 
 def classify(f, ctx):
-    if "ix" in f.get("case", {}):
+    if "ix" in f.get("case", {}) or "big" in f.get("case", {}):
         return None
     case = f["case"]
     if "which" not in f:
